@@ -74,7 +74,7 @@ def validate(work, tag, module, cfg, scripts, op_lines_by_sid, with_store, worke
         for r in lines:
             f.write(json.dumps(r) + "\n")
     name = root_module(sub, tag, module, cfg)
-    rc, out = tlc(sub, name + ".tla", name + ".cfg", workers=workers, timeout=timeout)
+    rc, out = tlc(sub, name + ".tla", name + ".cfg", workers=workers, timeout=timeout, heap="3g")
     if "Model checking completed" not in out:
         from common import Infra
         raise Infra("TLC trace validation (%s) failed:\n%s" % (tag, out[-3000:]))
